@@ -200,7 +200,7 @@ func init() {
 
 func init() {
 	reg(billCfg("C01", `^H_C01_`,
-		[]string{"unit layer, each step from a symbolic pre-state: calculateLine (price with currency / +2 / +4 decimals, quantity with 0..2 decimals, percentage discount, percentage or rate charge), calculateDiscounts/Charges (+ sums, with and without explicit base), calculateAdvances/totalAdvance/CalculateDues, calculateLineItemPrice (USD/JPY item, exchange rate or alternative price); all values symbolic (|v| <= 2^32), both rounding rules; EUR"},
+		[]string{"unit layer, each step from a symbolic pre-state: calculateLine (price with currency / +2 / +4 decimals, quantity with 0..2 decimals, percentage discount, percentage or rate charge), calculateDiscounts/Charges (+ sums, with and without explicit base), calculateAdvances/totalAdvance/CalculateDues, calculateLineItemPrice (USD/JPY item, exchange rate or alternative price); all values symbolic (|v| <= 2^32), both rounding rules; EUR", "whole pipeline under 'precise' against exact rational arithmetic (H_C01_Pipeline): 1-2 lines, price symbolic (|v| <= 10^6 units, 2 or 4 decimals), quantity from {3, -2, 7} with 0 or 2 decimals, optional 10 % line discount, optional 5 % document discount, VAT 21 %: sum, total, tax, total with tax and payable each less than one minor unit from the exact value (quick: the second line has 2 decimals and a whole quantity)"},
 		[]string{"same with JPY and BHD"},
 		[]string{"whole-pipeline comparison with a reference implementation under the precise rule and the 'less than a full minor unit' bound (only the per-step exactness is decided; the pipeline's accounting identities are decided under the currency rule in C03)", "sub-line breakdowns", "regime-default rule selection"}))
 }
